@@ -24,7 +24,7 @@ def run_exec(ctx, profile, cases, idx, tag):
     r = vh(ctx, ["c03exec", ctx.seed, ctx.tier, cases, idx, rep, trace], profile=profile, timeout=7200, check=False,
            env={"VH_HEAP_CAP": str(3 << 30)})
     if r.returncode in (3, 4):
-        m = re.search(r'\{"(hang|heapcap)": (\d+)', r.stdout or "")
+        m = re.search(r'\{"(hang|heapcap)":\s*(\d+)', r.stdout or "")
         kind, case = (m.group(1), int(m.group(2))) if m else ("?", -1)
         what = "no progress for 30 s (hang)" if kind == "hang" else "an allocation beyond the 3 GiB cap"
         ctx.violation("hostile input case %d (%s build): %s" % (case, profile, what),
